@@ -32,14 +32,14 @@ Definition lin_toks (i : lin) : list tok :=
   ++ match l_close i with Some a => TClose :: osym_tok a | None => [] end.
 Definition lins_toks (l : list lin) : list tok := flat_map lin_toks l.
 
-(** side conditions: markers and names as in [Grammar.item_ok]; a multiplied node carries neither
-    rings nor a bond symbol (class nodemult_sym excluded); a node that closes a branch carries no
+(** side conditions: markers and names as in [Grammar.item_ok]; a multiplied node carries no
+    rings; a node that closes a branch carries no
     bond symbol (the symbol would have no consumer) *)
 Definition lin_ok (fo : float_oracle) (i : lin) : bool :=
   name_ok fo (l_name i)
   && forallb (fun om => marker_ok (snd om)) (l_rings i)
   && match l_mult i with
-     | Some ds => is_nil (l_rings i) && negb (is_some (l_bond i)) && digits_ok ds && (1 <=? digits_nat ds)%nat
+     | Some ds => is_nil (l_rings i) && digits_ok ds && (1 <=? digits_nat ds)%nat
      | None => true
      end
   && match l_close i with Some _ => negb (is_some (l_bond i)) | None => true end.
